@@ -96,29 +96,30 @@ def run(ctx):
                 ctx.finding("flag-changes-modern-string", payload, "without flag %r, with flag %r" % (c, a))
         else:
             ctx.count("with_legacy")
-            # is some legacy symbol reached by the derivation?  Ask the reference about the modernised string,
-            # with each legacy position in turn replaced by an invalid marker.
-            first_reached = None
-            for p in legacy_pos:
-                probe = "".join("[Xx]" if i == p else m for i, m in enumerate(mod))
-                try:
-                    ref_decode(probe, table)
-                except RefReject as e:
-                    if e.symbol == "[Xx]":
-                        first_reached = p
-                        break
-                    break   # an earlier invalid symbol is reached first: the outcome is DecoderError anyway
-                except ValueError:
-                    break
+            # without the flag a legacy symbol is simply a symbol outside the grammar: the string must be rejected
+            # exactly when the derivation of the RAW string reaches one (legacy symbols in index positions or after
+            # termination are never reached)
+            try:
+                ref_decode(x, table)
+                rej = None
+            except RefReject as e:
+                rej = e.symbol
+            except ValueError:
+                rej = "?"
             c = out(x)
-            if first_reached is not None:
-                reached = True
-                ctx.count("legacy_reached")
+            if rej is not None:
+                if is_legacy(rej):
+                    reached = True
+                    ctx.count("legacy_reached")
                 if c[0] != "err":
-                    ctx.finding("legacy-symbol-accepted-without-flag", payload, "position %d (%s) is reached, decoder returned %r" % (
-                        first_reached, toks[first_reached], c))
-                else:
+                    ctx.finding("legacy-symbol-accepted-without-flag", payload,
+                                "the derivation reaches %s, decoder returned %r" % (rej, c))
+                elif is_legacy(rej):
                     ctx.count("rejected_without_flag")
+            elif c[0] != "ok":
+                ctx.finding("unreached-legacy-symbol-rejected", payload, "no symbol outside the grammar is reached, decoder gave %r" % (c,))
+            else:
+                ctx.count("legacy_unreached_accepted")
         ctx.case(x, reached, sample={"selfies": x[:160], "modernised": y[:160], "compatible_result": a[1] if a[0] == "ok" else a[0]} if reached else None)
 
 
